@@ -203,6 +203,10 @@ class Env:
             if k == 'inert':
                 name = t[2]
                 ex = t[3]
+                # an inert control sequence is a *defined* macro without arguments (an undefined one becomes an
+                # UnrecognizedMacro, whose __eq__ answers True to any string)
+                if name not in self.doc.context.keys():
+                    self.doc.context.addGlobal(name, type(str(name), (plasTeX.Command,), {}))
             elif k == 'grp':
                 name = 'bgroup' if t[2] else 'egroup'
                 ex = t[4]
